@@ -290,12 +290,60 @@ def run(ctx):
         if not ok:
             ctx.violation("reference-datagram-rejected:" + w[0], "a datagram produced by the protocol reference is not decoded to the same fields / signature by the real code",
                           {"input": rp, "datagram": data_hex, "real": res_dec_safe(ps)})
+    # ---- whole sessions: every datagram the two real endpoints emit vs the reference endpoint (the Lean L1 model, whose signature
+    # and key functions are proved equal to the reference functions used above: NxProps/C08 l1_*), including everything emitted
+    # after the k-th datagram of the session was lost once (retransmitted SYN / CONNECT and their acknowledgements with the
+    # Kerberos connection response, retransmitted data, late acknowledgements)
+    import multiprocessing, os
+    import l1_corr
+    drv2 = ctx.driver("C02")
+    jobs = []
+    for version, v0 in ((1, (0, 0, 0)), (0, (0, 1, 1)), (0, (1, 0, 0))):
+        for creds in (True, False):
+            for k in (range(0, 9) if quick else range(0, 25)):
+                jobs.append((version, v0, creds, k, ctx.rng.getrandbits(16)))
+    nsess = nsd = 0
+    with multiprocessing.Pool(min(16, os.cpu_count() or 4)) as pool:
+        for job, sess, err in pool.imap_unordered(session_job, jobs, chunksize=2):
+            if err:
+                ctx.corr_break("c08-session-harness", "session crashed in the harness", {"traceback": err, "job": list(job)})
+                continue
+            r = l1_corr.compare(drv2, sess, "x")
+            nsess += 1
+            ctx.case(key=("session",) + tuple(job[:4]), nontrivial=True, tag="session:v%d:%s:lost-%d" % (job[0], "creds" if job[2] else "nocreds", job[3]))
+            if not r["ok"]:
+                nsd += 1
+                d = r["diffs"][0]
+                if nsd <= 4:
+                    ctx.violation("wire-mismatch:session:v%d" % job[0],
+                                  "session (prudp v%d, v0 variant %r, %s credentials, genuine datagram #%d lost once): what the real endpoint '%s' emits differs from the protocol reference: %s"
+                                  % (job[0], job[1], "with" if job[2] else "without", job[3], d.get("endpoint"), json.dumps(d, default=repr)[:600]),
+                                  {"job": list(job), "first_difference": d, "how": "harness/corr_C08.py session_job(job) then l1_corr.compare(driver C02, session)"})
+    ctx.extra["sessions_replayed"] = nsess
+    ctx.extra["session_mismatches"] = nsd
     ctx.extra["reference_lines"] = len(lines)
     ctx.extra["mismatches"] = ndiff
     ctx.extra["exception_class_only_diffs"] = class_diffs
     ctx.extra["reverse_direction_datagrams"] = nrev
     ctx.assumptions.append("zlib.compress / zlib.decompress output is an oracle input of the reference (deflate is not re-implemented in Lean); the ratio byte and framing are computed by the reference")
     ctx.assumptions.append("'equals the published protocol' is differential by nature: the Lean reference is fixed and self-consistent (theorems), its agreement with prudp.py is sampled (exhaustive on the small axes)")
+
+
+def session_job(job):
+    import traceback, random
+    import prudp_session as psess
+    version, v0, creds, k, seed = job
+    try:
+        cfg = psess.Cfg(version=version, v0=v0, credentials=creds, fragment_size=9, resend_timeout=0.5, resend_limit=3, max_substream=(1 if version else 0))
+        rng = random.Random(seed)
+        script = [[("c", 0, rng.randbytes(20)), ("s", 0, rng.randbytes(9)), ("c", 0, ("u", rng.randbytes(5)))],
+                  [("s", (1 if version else 0), rng.randbytes(3)), ("c", 0, rng.randbytes(1))]]
+        fate = lambda sim, r: (lambda tx: [] if tx.g == k else [0.01])
+        sess = psess.run_session(cfg, seed, script, fate, phases_gap=1.0)
+        sess.transport = None
+        return job, sess, None
+    except Exception:
+        return job, None, traceback.format_exc()
 
 
 def safe_b(fn, *a):
